@@ -72,7 +72,7 @@ MK_FAMILIES = ["localp", "localp2", "localp0", "wavelet", "sequence", "global", 
 # ---------------------------------------------------------------------------------------------
 # child processes: always under a wall-clock timeout and a memory limit (a torn read may ask for 2^60 bytes)
 def _limits_plain():
-    resource.setrlimit(resource.RLIMIT_AS, (768 << 20, 768 << 20))
+    resource.setrlimit(resource.RLIMIT_AS, (400 << 20, 400 << 20))
     resource.setrlimit(resource.RLIMIT_CPU, (60, 60))
     resource.setrlimit(resource.RLIMIT_CORE, (0, 0))
 
@@ -82,7 +82,10 @@ def _limits_asan():
     resource.setrlimit(resource.RLIMIT_CORE, (0, 0))
 
 
-ASAN_ENV = "detect_leaks=0:max_allocation_size_mb=64:hard_rss_limit_mb=1000:allocator_may_return_null=0:abort_on_error=0:symbolize=0:fast_unwind_on_malloc=1"
+ASAN_ENV = "detect_leaks=0:max_allocation_size_mb=64:hard_rss_limit_mb=200:allocator_may_return_null=0:abort_on_error=0:symbolize=0:fast_unwind_on_malloc=1"
+
+
+PRLIMIT = shutil.which("prlimit")
 
 
 def child(cmd, env=None, timeout=30, asan=False):
@@ -93,8 +96,15 @@ def child(cmd, env=None, timeout=30, asan=False):
     if asan:
         e["ASAN_OPTIONS"] = ASAN_ENV
         e["UBSAN_OPTIONS"] = "print_stacktrace=0"
+    pre = None
+    if PRLIMIT:
+        # resource limits through the prlimit wrapper: preexec_fn is not safe in a multi-threaded parent
+        lim = ["--cpu=120", "--core=0"] if asan else ["--as=%d" % (400 << 20), "--cpu=60", "--core=0"]
+        cmd = [PRLIMIT] + lim + ["--"] + list(cmd)
+    else:
+        pre = _limits_asan if asan else _limits_plain
     try:
-        p = subprocess.run(cmd, env=e, capture_output=True, timeout=timeout, preexec_fn=_limits_asan if asan else _limits_plain)
+        p = subprocess.run(cmd, env=e, capture_output=True, timeout=timeout, preexec_fn=pre)
         return p.returncode, p.stdout.decode(errors="replace"), p.stderr.decode(errors="replace")
     except subprocess.TimeoutExpired as ex:
         so = ex.stdout.decode(errors="replace") if ex.stdout else ""
@@ -525,6 +535,8 @@ def evaluate_case(sc, c, mres, variant):
 
     def attribute(generic, what):
         """name the defect class that explains a failure at this kill point, if the code variant has it"""
+        if variant == "??":
+            return (generic, what)
         if in_initial and restarted_process and not skip:
             return (K_INITIAL, what)
         if (not in_initial) and not b2o:
@@ -553,7 +565,11 @@ def evaluate_case(sc, c, mres, variant):
             elif rc_["kv"].get("roundtrip") != "1" or float.fromhex(rc_["kv"].get("maxerr", "0x0p+0")) > TOL:
                 out.append(("roundtrip", "reading a complete checkpoint and writing it again does not give the same bytes / values: %s" % rc_["text"]))
         else:
-            if rc_["status"] == "ok":
+            if rc_["status"] == "ok" and gl is None:
+                # not a prefix of any checkpoint of this run: nothing the modelled procedure can leave behind
+                out.append(("foreign-content-accepted", "file %s (%d bytes, kill %d %s) is neither a checkpoint nor a prefix of one, yet the reader "
+                            "accepts it: %s" % (nm, len(b), k, when, rc_["text"])))
+            elif rc_["status"] == "ok":
                 out.append((K_ACCEPT + section, "the real reader ACCEPTS the torn file %s (%d bytes, kill %d %s): %s" % (nm, len(b), k, when, rc_["text"])))
             elif rc_["status"] != "runtime_error":
                 out.append((K_NOTRT + section, "reading the torn file %s (%d bytes, kill %d %s) does not throw std::runtime_error: %s %s"
@@ -593,12 +609,27 @@ def evaluate_case(sc, c, mres, variant):
     # samples that the recovered checkpoint holds (computed before it) and how many of them the grid does not count as loaded:
     # constructCommon line 168 initialises its counter with getNumLoaded() + getNumStored() only
     held, parked = None, 0
-    if mres is not None and "recover_coded" in mres and mres["recover_coded"].split(":")[1].isdigit():
-        j = int(mres["recover_coded"].split(":")[1])
-        held = len(sc.prior) + sum(len(call) for call in log1.calls[:max(j - sc.base, 0)])
+    # the state the restart recovered, from the outcome of the real reader on the two files (main first, then backup)
+    j = None
+    for nm in ("cur", "old"):
+        if c[nm] is not None and c["rc_" + nm]["status"] == "ok":
+            b = c[nm]
+            for jj in range(len(sc.table_bytes) - 1, -1, -1):
+                tb = sc.table_bytes[jj]
+                if tb is not None and tb[:len(b)] == b:
+                    j = jj
+                    break
+            break
+    if j is None and not any(c[nm] is not None and c["rc_" + nm]["status"] == "ok" for nm in ("cur", "old")):
+        held = 0                                 # nothing recovered: the run starts over
+    if j is not None:
+        held = (len(sc.prior) if j >= sc.base else max(len(sc.prior) - sum(1 for _ in range(sc.base - j)) * sc.cfg[2], 0)) + \
+            sum(len(call) for call in log1.calls[:max(j - sc.base, 0)])
         if j < len(sc.numtotal) and sc.numtotal[j] is not None:
             parked = max(held - sc.numtotal[j], 0)
     over = max(rs["numloaded"] - budget, (held + len(redo) - budget) if held is not None else 0)
+    if j is not None and log2.gstates and j < len(sc.numloaded) and log2.gstates[0][1] not in (sc.numloaded[j], sc.numtotal[j]):
+        parked = 0          # the restart did not begin with the state inferred from the files: nothing is explained by parked samples
     if over > 0:
         out.append((K_PARKED if over <= parked else "budget-exceeded",
                     "budget %d exceeded by %d: the recovered checkpoint holds %s computed samples (%d of them parked inside the grid, not "
@@ -629,7 +660,7 @@ def evaluate_case(sc, c, mres, variant):
 
 
 # ---------------------------------------------------------------------------------------------
-def run(res, tier, seed, only=None):
+def run(res, tier, seed, only=None, only_cfg=None):
     props = vlib.coq_props(PID)
     vlib.proof_coverage(res, PID, props, "cd coq && make Props/Properties_C17.vo && coqc -Q . TV Props/Properties_C17.v", TRUSTED)
     ok_ext, elog = vlib.coq_make(["Extract/ExtractCheckpoint.vo"])
@@ -642,17 +673,19 @@ def run(res, tier, seed, only=None):
     fams = list(FAMILIES_QUICK if tier == "quick" else FAMILIES_THOROUGH)
     if only:
         fams = [tuple(only["cfg"])]
+    if only_cfg:
+        fams = [tuple(only_cfg)]
     tears = ["0", "1", "half", "len-1"]
     if tier == "thorough":
         tears += ["q1", "q3", "16", "len-9"]
     # seed-dependent variation of the quick configuration (budget / batch), the witness configuration always first
-    if tier == "quick" and not only and seed != 1:
+    if tier == "quick" and not only and not only_cfg and seed != 1:
         fams.append((r.choice(["localp", "sequence", "localp2", "global"]), r.choice([10, 12, 14]), r.choice([1, 2, 3]), r.choice([1, 2])))
 
     # corpus: witness configurations are always part of the run, witness files are always part of the H-TORN sample
     cdir = os.path.join(vlib.ROOT, "corpus", PID)
-    corpus_torn = []
-    if os.path.isdir(cdir) and not only:
+    corpus_torn, light, extra_restart = [], set(), {}
+    if os.path.isdir(cdir) and not only and not only_cfg:
         for fn in sorted(os.listdir(cdir)):
             if not fn.endswith(".json"):
                 continue
@@ -660,14 +693,21 @@ def run(res, tier, seed, only=None):
                 w = json.load(open(os.path.join(cdir, fn)))
             except ValueError:
                 continue
-            if w.get("kind") == "kill" and tuple(w["cfg"]) not in fams:
-                fams.insert(0, tuple(w["cfg"]))
+            if w.get("kind") == "kill":
+                cfg_ = tuple(w["cfg"])
+                if cfg_ not in fams:
+                    if w.get("light"):
+                        light.add(cfg_)       # reference run and restart only (no kill enumeration)
+                    fams.append(cfg_)
+                if w.get("restart_after"):
+                    extra_restart.setdefault(cfg_, set()).add(int(w["restart_after"]))
             elif w.get("kind") == "torn":
                 corpus_torn.append((os.path.join(cdir, w["file"]), int(w["gridlen"])))
 
     scenarios = []
     for ci, cfg in enumerate(fams):
         sc = Scenario(ctx, "f%d-%s-b%d" % (ci, cfg[0], cfg[2]), cfg)
+        sc.light = cfg in light
         sc.reference()
         scenarios.append(sc)
     # second-level scenarios: a process restarted from the files left by a kill between two checkpoints
@@ -676,6 +716,9 @@ def run(res, tier, seed, only=None):
         if sc.ncalls < 4:
             continue
         ms = [2] if tier == "quick" else sorted(set([1, 2, sc.ncalls // 2]))
+        if sc.light:
+            ms = []
+        ms = sorted(set(ms) | set(m for m in extra_restart.get(tuple(sc.cfg), ()) if m < sc.ncalls))
         for m in ms:
             firsts = [o["idx"] for o in sc.ops if o["phase"] == m + 1]
             if not firsts:
@@ -684,13 +727,19 @@ def run(res, tier, seed, only=None):
             rr = run_proc(ctx, sc.cfg, d, kill=(firsts[0], "before"))
             if not rr["log"].killed:
                 continue
-            prior = [x for call in rr["log"].calls[:m] for x in call]
             st = (os.path.join(d, "ck.start"), os.path.join(d, "ck_old.start"))
             for a, b in ((rr["ck"], st[0]), (rr["ck"] + "_old", st[1])):
                 if os.path.exists(a):
                     shutil.copyfile(a, b)
+            # the samples the start state really holds: what the real reader can recover from the two files
+            prior = []
+            if read_bytes(st[0]) == sc.table_bytes[m] and readcheck(ctx, st[0])["status"] == "ok":
+                prior = [x for call in rr["log"].calls[:m] for x in call]
+            elif m >= 1 and read_bytes(st[1]) == sc.table_bytes[m - 1] and readcheck(ctx, st[1])["status"] == "ok":
+                prior = [x for call in rr["log"].calls[:m - 1] for x in call]
             sc2 = Scenario(ctx, sc.name + "-restart%d" % m, sc.cfg, start=st, prior_samples=prior,
                            max_phase=(3 if tier == "quick" else 6), prior_tables=[sc.table[m - 1]] if m >= 1 else [])
+            sc2.light = sc.light
             sc2.reference()
             sc2.parent_m = m
             second.append(sc2)
@@ -715,7 +764,7 @@ def run(res, tier, seed, only=None):
     # kill cases
     jobs = []
     for sc in all_sc:
-        pts = sc.kill_points(tears)
+        pts = [] if getattr(sc, "light", False) else sc.kill_points(tears)
         if only:
             pts = [(only["k"], only["when"])] if sc.name == only["scenario"] else []
         for k, when in pts:
@@ -730,6 +779,7 @@ def run(res, tier, seed, only=None):
 
     # which code variant explains ALL processes
     variant_votes = None
+    case_good = {}
     corr_bad = []
     n_corr_ok = 0
     if mres:
@@ -743,15 +793,22 @@ def run(res, tier, seed, only=None):
                                  % (kv.get("conform"), kv.get("deviate"), kv.get("act_cur"), kv.get("act_old"))))
                 continue
             n_corr_ok += 1
-            variant_votes = good if variant_votes is None else (variant_votes & good)
+            case_good[cid] = good
+            # the complete (unkilled) processes decide the variant: a killed process is often explained by several
+            if cid.endswith("/ref"):
+                variant_votes = good if variant_votes is None else (variant_votes & good)
         if mres["rc"] != 0:
             corr_bad.append(("runner", "model runner exit %d %s" % (mres["rc"], mres["stderr"])))
-    if variant_votes:
+    ref_ok = mres is not None and all((sc.name + "/ref") in case_good for sc in all_sc)
+    if variant_votes and ref_ok:
         variant = sorted(variant_votes, reverse=True)[0]     # prefer the repaired reading when several fit
+        for cid, good in case_good.items():
+            if variant not in good:
+                corr_bad.append((cid, "the process is not explained by the code variant %s recognised on the unkilled runs (explained by %s)" % (variant, sorted(good))))
     else:
-        variant = "11"
+        variant = "??"                                       # the code is none of the modelled variants: no failure is attributed to a known defect
         if mres and not corr_bad:
-            corr_bad.append(("variant", "no single code variant explains all processes"))
+            corr_bad.append(("variant", "no single code variant explains all unkilled processes"))
 
     # reference runs must themselves satisfy the property
     nviol = 0
@@ -826,16 +883,22 @@ def run(res, tier, seed, only=None):
 
     # H-TORN on the real reader
     torn_files = []
-    sc0 = scenarios[0]
+    sc0 = next((x for x in scenarios if not x.light), scenarios[0])
     sel = sorted(set([0, 1, 2, sc0.ncalls // 3, sc0.ncalls // 2, sc0.ncalls]))
     for k in sel:
         if k < len(sc0.table) and sc0.gridlens[k] >= 0:
             torn_files.append((sc0.table[k], sc0.gridlens[k]))
-    for sc in scenarios[1:]:
+    for sc in scenarios:
         k = sc.ncalls // 2
-        if sc.gridlens[k] >= 0:
+        if sc is not sc0 and sc.gridlens[k] >= 0 and not sc.light:
             torn_files.append((sc.table[k], sc.gridlens[k]))
-    torn_files = [f for f in corpus_torn if os.path.exists(f[0])] + torn_files
+    stale_corpus = []
+    for f, gl in corpus_torn:
+        rc_ = readcheck(ctx, f) if os.path.exists(f) else {"status": "missing"}
+        if rc_["status"] == "ok" and rc_["kv"].get("roundtrip") == "1" and int(rc_["kv"]["gridlen"]) == gl:
+            torn_files.insert(0, (f, gl))
+        else:
+            stale_corpus.append(os.path.basename(f))      # written by another format version: not a complete checkpoint any more
     mkdir = os.path.join(ctx.wd, "mk")
     os.makedirs(mkdir, exist_ok=True)
     mk_list = []
@@ -880,7 +943,7 @@ def run(res, tier, seed, only=None):
     elif corr_bad:
         res.coverage["correspondence_breaks_alongside_violations"] = [list(x) for x in corr_bad[:5]]
     # the code variant the model recognises: the as-coded variants carry the refutation theorems
-    if variant[0] == "0" and K_BACKUP not in stats["by_key"] and not only:
+    if variant[0] == "0" and K_BACKUP not in stats["by_key"] and not only and not all(getattr(x, "light", False) for x in all_sc):
         res.violation(K_BACKUP, "the observed operations are those of the procedure AS CODED (backup stream opened under the main name; "
                       "theorem c17_as_coded_refuted) but no kill point exposed it", {"kind": "correspondence-break", "variant": variant}, no_input=True)
     if proof_broken and not res.violations:
@@ -921,29 +984,37 @@ def run(res, tier, seed, only=None):
         "samples": samples[:8],
         "programs": len(all_sc), "traces_validated_against_impl": n_corr_ok, "disagreements_checked": len(corr_bad),
         "correspondence": {"processes_followed_by_model": n_corr_ok, "breaks": len(corr_bad), "code_variant_recognised":
-                           {"backup_stream_under_backup_name": variant[0] == "1", "initial_checkpoint_skipped_after_main_recovery": variant[1] == "1"}},
+                           {"recognised": variant != "??", "backup_stream_under_backup_name": variant[0] == "1", "initial_checkpoint_skipped_after_main_recovery": variant[1] == "1"}},
         "input_distribution": {"configurations": [list(s.cfg) for s in scenarios], "second_level_scenarios": [s.name for s in second],
                                "kill_cases": stats["kills"], "kill_point_beyond_end_of_run": stats["not_killed"], "child_processes": ctx.nchild,
                                "file_classes_after_kill(cur|old)": stats["classes"]},
         "direct_property_failures_by_key": stats["by_key"],
         "hypotheses_checked": {"H-TORN": dict(tcounts, sample_files=[os.path.basename(f) for f, _ in torn_files],
                                               offenders_by_key={k: len(v) for k, v in tkeys.items()})},
-        "wall_kill_phase_s": round(t_kill, 1), "wall_torn_phase_s": round(t_torn, 1),
+        "wall_kill_phase_s": round(t_kill, 1), "wall_torn_phase_s": round(t_torn, 1), "stale_corpus_files_skipped": stale_corpus,
     })
     res.assumptions = ASSUMPTIONS
     return stats
 
 
 def replay(path):
+    """re-runs the recorded input on the current tree: the configuration of the replay file with all its kill points (the
+    recorded one included), or the recorded torn prefix file for an H-TORN replay"""
     rp = json.load(open(path))
-    res = vlib.Result(PID, "quick", rp.get("seed", 1), LEVEL)
-    if "cfg" in rp and rp.get("k"):
-        sc = rp["scenario"]
-        # second-level scenarios are rebuilt by the normal enumeration; restrict to the configuration
-        if "-restart" in sc:
-            run(res, "quick", rp.get("seed", 1), only=None)
-        else:
-            run(res, "quick", rp.get("seed", 1), only={"cfg": rp["cfg"], "scenario": "f0-%s-b%d" % (rp["cfg"][0], rp["cfg"][2]), "k": rp["k"], "when": rp["when"]})
+    seed = rp.get("seed", 1)
+    res = vlib.Result(PID, "quick", seed, LEVEL)
+    if rp.get("hypothesis") == "H-TORN" and os.path.exists(rp.get("file", "")):
+        ctx = Ctx(res, "quick", seed)
+        counts, off = torn_check(ctx, [(rp["file"], int(rp.get("gridlen", 0)))])
+        for o in off[:1]:
+            key = (K_ACCEPT if o["outcome"] == "accepted" else K_NOTRT) + o["section"]
+            res.violation(key, "H-TORN fails: the first %d of %d bytes give '%s' [%d prefixes]" % (o["L"], o["size"], o["text"][:120], len(off)),
+                          {"kind": "impl-counterexample", "hypothesis": "H-TORN", "file": o["file"], "prefix_length": o["L"], "gridlen": o["gridlen"]})
+        res.coverage.update({"evaluations": counts["prefixes"], "distinct_nontrivial": counts["prefixes"], "rule": "replay of one H-TORN sample file",
+                             "samples": [rp["file"]], "explanation": "replay"})
+        return res.finish()
+    if "cfg" in rp:
+        run(res, "quick", seed, only_cfg=tuple(rp["cfg"]))
     else:
-        run(res, "quick", rp.get("seed", 1))
+        run(res, "quick", seed)
     return res.finish()
